@@ -214,7 +214,7 @@ def orchestrate(prop_id, tier, seed):
                 json.dump(v, f, indent=1, default=str)
             paths.append(path)
     wall = time.time() - t0
-    if results:
+    if results and not os.environ.get('VERIF_NO_EVIDENCE'):   # sensitivity runs against scratch copies keep evidence intact
         write_evidence(prop, tier, seed, results, violations + [r[0] for r in regressions], wall, known_lines,
                        harness_errors)
     for line in known_lines:
